@@ -4,7 +4,7 @@ Helper lemmas for C18 (7): gluing.
 * blocks are additive over chromosomes and every chromosome owns at least one (`nruns_labelsAll`);
 * the cells of the haplotype matrix: written ones carry the block values, all are written iff the
   number of runs equals the number of block columns (`traitValues_haplomat`);
-* what `blocksOf` returns (`blocksOf_ok`) and that its internal error branches are dead.
+* what `blocksOfPrerepair` returns (`blocksOfPrerepair_ok`) and that its internal error branches are dead.
 -/
 import PybropsModel.Lemmas.HaploApportion
 import PybropsModel.Lemmas.HaploFill
@@ -237,7 +237,7 @@ theorem traitValues_haplomat_none (n : Nat) (bnds : List (Nat × Nat)) (gm : Lis
 
 end
 
-/-! ### what `blocksOf` returns -/
+/-! ### what `blocksOfPrerepair` returns -/
 section
 variable {α : Type} [Field α] [LinearOrder α] [IsStrictOrderedRing α]
 
@@ -250,17 +250,17 @@ theorem blockBounds_eq (l : List Nat) (hne : l ≠ []) : blockBounds l = .ok (bl
   | cons a xs =>
     simp only [blockBounds, haplobinBounds_eq, blockPairs]
 
-/-- the successful branch of `blocksOf`, unfolded into the facts proved about its stages -/
-theorem blocksOf_ok (n : Nat) (chroms : List (List α)) (guard : Bool) (hv : ValidChroms chroms)
+/-- the successful branch of `blocksOfPrerepair`, unfolded into the facts proved about its stages -/
+theorem blocksOfPrerepair_ok (n : Nat) (chroms : List (List α)) (guard : Bool) (hv : ValidChroms chroms)
     (nblk hbin : List Nat) (bnds : List (Nat × Nat))
-    (h : blocksOf n chroms guard = .ok (nblk, hbin, bnds)) :
-    nhaploblkChrom n chroms = .ok nblk ∧
+    (h : blocksOfPrerepair n chroms guard = .ok (nblk, hbin, bnds)) :
+    nhaploblkChromPrerepair n chroms = .ok nblk ∧
     hbin = labelsAll (hbounds nblk chroms) chroms 0 ∧
     bnds = blockPairs hbin ∧
     List.Forall₂ BoundsOK (hbounds nblk chroms) chroms ∧
     nbins (hbounds nblk chroms) = n := by
-  unfold blocksOf at h
-  cases hnb : nhaploblkChrom n chroms with
+  unfold blocksOfPrerepair at h
+  cases hnb : nhaploblkChromPrerepair n chroms with
   | error e => simp [hnb] at h
   | ok nb =>
     simp only [hnb] at h
@@ -269,11 +269,11 @@ theorem blocksOf_ok (n : Nat) (chroms : List (List α)) (guard : Bool) (hv : Val
       have := congrArg List.length h0
       rw [genlen_length] at this
       exact hv.1 (List.length_eq_zero_iff.mp this)
-    obtain ⟨hl, hsum, hpos⟩ := nhaploblkChromOfLen_ok n (genlen chroms) nb hne hnb
+    obtain ⟨hl, hsum, hpos⟩ := nhaploblkChromOfLenPrerepair_ok n (genlen chroms) nb hne hnb
     rw [genlen_length] at hl
     obtain ⟨hok, hnbins⟩ := hbounds_ok nb chroms hl hpos hv.2
-    have hlab : haplobin nb chroms = (labelsAll (hbounds nb chroms) chroms 0).map some :=
-      haplobinHB_eq_labels _ _ 0 hok
+    have hlab : haplobinPrerepair nb chroms = (labelsAll (hbounds nb chroms) chroms 0).map some :=
+      haplobinHBPrerepair_eq_labels _ _ 0 hok
     split at h
     · cases h
     · rw [hlab, allSome_map_some] at h
@@ -287,16 +287,16 @@ theorem blocksOf_ok (n : Nat) (chroms : List (List α)) (guard : Bool) (hv : Val
         obtain ⟨rfl, rfl, rfl⟩ := h
         exact ⟨rfl, rfl, rfl, hok, by rw [hnbins, hsum]⟩
 
-/-- `blocksOf` fails only by refusing the request (`"value"`): the branches for an unlabelled marker
+/-- `blocksOfPrerepair` fails only by refusing the request (`"value"`): the branches for an unlabelled marker
     and for more runs than block columns are dead code on valid layouts -/
-theorem blocksOf_error (n : Nat) (chroms : List (List α)) (guard : Bool) (hv : ValidChroms chroms)
-    (e : String) (h : blocksOf n chroms guard = .error e) : e = "value" := by
-  unfold blocksOf at h
-  cases hnb : nhaploblkChrom n chroms with
+theorem blocksOfPrerepair_error (n : Nat) (chroms : List (List α)) (guard : Bool) (hv : ValidChroms chroms)
+    (e : String) (h : blocksOfPrerepair n chroms guard = .error e) : e = "value" := by
+  unfold blocksOfPrerepair at h
+  cases hnb : nhaploblkChromPrerepair n chroms with
   | error e' =>
     simp only [hnb, Except.error.injEq] at h
     subst h
-    exact nhaploblkChromOfLen_error n (genlen chroms) e' hnb
+    exact nhaploblkChromOfLenPrerepair_error n (genlen chroms) e' hnb
   | ok nb =>
     simp only [hnb] at h
     have hne : genlen chroms ≠ [] := by
@@ -304,11 +304,11 @@ theorem blocksOf_error (n : Nat) (chroms : List (List α)) (guard : Bool) (hv : 
       have := congrArg List.length h0
       rw [genlen_length] at this
       exact hv.1 (List.length_eq_zero_iff.mp this)
-    obtain ⟨hl, hsum, hpos⟩ := nhaploblkChromOfLen_ok n (genlen chroms) nb hne hnb
+    obtain ⟨hl, hsum, hpos⟩ := nhaploblkChromOfLenPrerepair_ok n (genlen chroms) nb hne hnb
     rw [genlen_length] at hl
     obtain ⟨hok, hnbins⟩ := hbounds_ok nb chroms hl hpos hv.2
-    have hlab : haplobin nb chroms = (labelsAll (hbounds nb chroms) chroms 0).map some :=
-      haplobinHB_eq_labels _ _ 0 hok
+    have hlab : haplobinPrerepair nb chroms = (labelsAll (hbounds nb chroms) chroms 0).map some :=
+      haplobinHBPrerepair_eq_labels _ _ 0 hok
     split at h
     · simpa using h.symm
     · rw [hlab, allSome_map_some] at h
